@@ -9,7 +9,7 @@ from ..abstools import *
 from ..absint import CTX, GenList
 from ..absval import Raised
 from ..core import AnalysisError, own_nodes, norm, parents
-from . import C06
+from . import C06, C07
 
 LEVEL_TEXT = ("static analysis: (D1) every exclude file is subtracted through subtract(), whose non-nested-subtrahend precondition is established by "
               "merge() (rule of C06-D1); (D2) join_regions interpreted on three symbolic regions of one chromosome plus one of another, the two gaps "
@@ -166,6 +166,7 @@ def run(chk):
     d2(chk, prog)
     d3(chk, prog)
     d4(chk, prog)
+    C07.d6(chk, prog)            # exclusion is per sequence: chromosome pairing of by_shared_chroms (shared with C07-D6)
 
 
 _A = "cnvlib/access.py"
